@@ -116,7 +116,7 @@ def check_proof_bytes(prop, tier, repo, verif):
     head, tail, stride = (256, 64, 64) if tier == 'thorough' else (64, 32, 2048)
     res = {'unit': 'bounded:proof_bytes', 'engine': 'bounded run of the real prover / ExecutionProof::from_bytes / verify (tools/proofprobe)', 'status': 'ok',
            'failures': [], 'undecided': [], 'bounded': True,
-           'bound': 'one real proof; every bit flip in the first %d and last %d bytes, bit 0 of every %d-th byte in between, 9 truncations; required: no panic, no acceptance' % (head, tail, stride)}
+           'bound': 'one real proof; every bit flip in the first %d and last %d bytes, bit 0 of every %d-th byte in between, 9 truncations, 4 ways of appending bytes after the proof; required: no panic, no acceptance' % (head, tail, stride)}
     binp, err = build_tool(repo, verif, 'proofprobe')
     if binp is None:
         res['status'] = 'undecided'
@@ -138,6 +138,8 @@ def check_proof_bytes(prop, tier, repo, verif):
         if prop == 'C19' and kind == 'accepted':
             continue        # C19 is about decoding (no panic, re-encodable); acceptance of altered proofs is C02
         where = 'offset-%d' % off if off < n // 2 else 'offset-from-end-%d' % (n - off)
+        if bit == '-2':
+            where = 'appended-bytes'
         slug = re.sub(r'[^a-z0-9]+', '-', detail.lower()).strip('-')[:48]
         ob = '%s/bounded/proof_bytes#%s:%s:%s' % (prop, kind, where, slug)
         if ob in seen:
@@ -145,7 +147,7 @@ def check_proof_bytes(prop, tier, repo, verif):
         seen.add(ob)
         res['failures'].append({'obligation': ob, 'message': 'corrupted proof bytes: %s (%s)' % (kind, detail), 'rendered': ln,
                                 'origins': ['air/src/proof.rs', 'verifier/src/lib.rs'],
-                                'failing_input': {'flip': 'byte %d bit %s of the serialised proof of `begin push.3 push.4 add drop end`' % (off, bit),
+                                'failing_input': {'flip': ('%d bytes appended to the serialised proof of `begin push.3 push.4 add drop end`' % (off - n)) if bit == '-2' else 'byte %d bit %s of the serialised proof of `begin push.3 push.4 add drop end`' % (off, bit),
                                                   'cmd': '.cache/target/debug/proofprobe %d %d %d' % (head, tail, stride)}})
     if res['failures']:
         res['status'] = 'fail'
@@ -157,9 +159,9 @@ def check_proof_bytes(prop, tier, repo, verif):
 def check_u64_grid(prop, tier, repo, verif):
     t0 = time.time()
     n = 7 if tier == 'thorough' else 5
-    res = {'unit': 'bounded:u64_boundary_grid', 'engine': 'bounded run of the real assembler + processor on std::math::u64 (tools/u64probe)', 'status': 'ok',
+    res = {'unit': 'bounded:u64_boundary_grid', 'engine': 'bounded run of the real assembler + processor on std::math::u64 and std::math::u256 (tools/u64probe)', 'status': 'ok',
            'failures': [], 'undecided': [], 'bounded': True,
-           'bound': 'all 29 u64 procedures on every operand pair with limbs from a %d-value boundary set (0, 1, 2^31, 2^32-2, 2^32-1%s), shifts/rotations on all amounts 0..63, compared with native arithmetic incl. a sentinel below the operands' % (n, ', 2, 2^31-1' if n == 7 else '')}
+           'bound': 'all 29 u64 procedures on every operand pair with limbs from a %d-value boundary set (0, 1, 2^31, 2^32-2, 2^32-1%s), shifts/rotations on all amounts 0..63, compared with native arithmetic incl. a sentinel below the operands; all 8 u256 procedures (add/sub/mul_unsafe, and, or, xor, eq_unsafe, iszero_unsafe) on 72 x 72 operand patterns (all-zero, all-ones, single boundary limbs in every position, half-full, alternating, 40 fixed pseudo-random boundary mixes) against limb-wise big-integer arithmetic' % (n, ', 2, 2^31-1' if n == 7 else '')}
     binp, err = build_tool(repo, verif, 'u64probe')
     if binp is None:
         res['status'] = 'undecided'
@@ -173,12 +175,13 @@ def check_u64_grid(prop, tier, repo, verif):
         return res
     seen = set()
     for ln in p.stdout.split('\n'):
-        mm = re.match(r'FAIL (\w+) (.*)', ln)
+        mm = re.match(r'FAIL ([\w:]+) (.*)', ln)
         if not mm or mm.group(1) in seen:
             continue
         seen.add(mm.group(1))
-        res['failures'].append({'obligation': '%s/bounded/u64_boundary_grid#u64::%s' % (prop, mm.group(1)), 'message': 'u64::%s deviates from the integer function' % mm.group(1),
-                                'rendered': ln, 'origins': ['stdlib/asm/math/u64.masm'],
+        pname = mm.group(1) if '::' in mm.group(1) else 'u64::' + mm.group(1)
+        res['failures'].append({'obligation': '%s/bounded/u64_boundary_grid#%s' % (prop, pname), 'message': '%s deviates from the integer function' % pname,
+                                'rendered': ln, 'origins': ['stdlib/asm/math/u64.masm', 'stdlib/asm/math/u256.masm'],
                                 'failing_input': {'case': mm.group(2)[:300], 'cmd': '.cache/target/debug/u64probe %d' % n}})
     if res['failures']:
         res['status'] = 'fail'
@@ -347,4 +350,85 @@ def check_air_cells(prop, tier, repo, verif):
         res['status'] = 'fail'
     res['wall_s'] = round(time.time() - t0, 1)
     res['checker_cmd'] = 'tools/airprobe (built against the current tree): %s rows, %s (operation, cell) pairs' % (m.group(1), m.group(3))
+    return res
+
+
+def check_ast_roundtrip(prop, tier, repo, verif):
+    t0 = time.time()
+    res = {'unit': 'bounded:ast_roundtrip', 'engine': 'bounded run of the real parser / serialiser / deserialiser / assembler / processor (tools/astprobe)', 'status': 'ok',
+           'failures': [], 'undecided': [], 'bounded': True,
+           'bound': '750 instruction forms (every mnemonic, boundary immediates) as ProgramAst and as ModuleAst, 35 + 22 container shapes (counts / name lengths / docs / imports / re-exports at the u8 / u16 edges), 8 MaslLibrary shapes (+3 constructor edge cases), 17 executed programs, Kernel / ProgramInfo / StackInputs / StackOutputs sizes; each: to_bytes -> from_bytes -> equality, byte fix-point, source locations written and reloaded, recompilation to the same MAST root'}
+    binp, err = build_tool(repo, verif, 'astprobe')
+    if binp is None:
+        res['status'] = 'undecided'
+        res['undecided'].append('astprobe does not build against the current tree: ' + err)
+        return res
+    p = subprocess.run([binp], stdout=subprocess.PIPE, stderr=subprocess.PIPE, text=True)
+    m = re.search(r'SUMMARY checks=(\d+) failures=(\d+)', p.stdout)
+    if not m:
+        res['status'] = 'undecided'
+        res['undecided'].append('astprobe gave no summary (panic?): ' + (p.stdout + p.stderr)[-400:])
+        return res
+    seen = set()
+    for ln in p.stdout.split('\n'):
+        mm = re.match(r'FAIL \[(\S+)\] (.*?) :: (.*)', ln)
+        if not mm:
+            continue
+        group, what, detail = mm.group(1), mm.group(2), mm.group(3)
+        # one obligation per (group, instruction mnemonic / case): boundary immediates of one form collapse
+        key = (group, re.sub(r'[=.][0-9a-fx.]+$', '', what)[:80])
+        if key in seen:
+            continue
+        seen.add(key)
+        if detail.startswith('HARNESS'):
+            res['undecided'].append('astprobe harness precondition failed for %s %s: %s' % (group, what, detail[:200]))
+            continue
+        res['failures'].append({'obligation': '%s/bounded/ast_roundtrip#%s:%s' % (prop, group, key[1]), 'message': 'serialisation round trip: [%s] %s' % (group, what),
+                                'rendered': ln[:1500], 'origins': ['assembly/src/ast/nodes/serde', 'assembly/src/ast/mod.rs', 'assembly/src/ast/imports.rs', 'assembly/src/library/masl.rs', 'core/src'],
+                                'failing_input': {'group': group, 'case': what[:400], 'detail': detail[:600], 'cmd': '.cache/target/debug/astprobe'}})
+    if res['failures']:
+        res['status'] = 'fail'
+    elif res['undecided']:
+        res['status'] = 'undecided'
+    res['wall_s'] = round(time.time() - t0, 1)
+    res['checker_cmd'] = 'tools/astprobe (built against the current tree): %s checks' % m.group(1)
+    return res
+
+
+def check_hash_invariance(prop, tier, repo, verif):
+    t0 = time.time()
+    res = {'unit': 'bounded:hash_invariance', 'engine': 'bounded run of the real assembler and processor (tools/hashprobe)', 'status': 'ok',
+           'failures': [], 'undecided': [], 'bounded': True,
+           'bound': '11 programs (spans, if/else, if without else, while, repeat, exec, call, locals + memory, syscall with a kernel, nested control flow, a 2-batch span): comments + whitespace, procedure renaming, debug-mode assembly, 6 decorators (debug.stack, debug.mem, emit, trace, adv.push_mapval, adv.insert_hdword) and breakpoint inserted at every body position in both assembly modes => same MAST root; every single operation / immediate substituted => another root; execute(): trace.program_hash() == program.hash()'}
+    binp, err = build_tool(repo, verif, 'hashprobe')
+    if binp is None:
+        res['status'] = 'undecided'
+        res['undecided'].append('hashprobe does not build against the current tree: ' + err)
+        return res
+    p = subprocess.run([binp], stdout=subprocess.PIPE, stderr=subprocess.PIPE, text=True)
+    m = re.search(r'SUMMARY checks=(\d+) failures=(\d+)', p.stdout)
+    if not m:
+        res['status'] = 'undecided'
+        res['undecided'].append('hashprobe gave no summary (panic?): ' + (p.stdout + p.stderr)[-400:])
+        return res
+    seen = {}
+    for ln in p.stdout.split('\n'):
+        mm = re.match(r'FAIL (\S+) (\S+) (.*)', ln)
+        if not mm:
+            continue
+        kind, prog, detail = mm.groups()
+        if kind.startswith('harness'):
+            res['undecided'].append('hashprobe harness precondition failed: %s %s %s' % (kind, prog, detail[:200]))
+            continue
+        seen.setdefault(kind, []).append((prog, detail))
+    for kind, lst in seen.items():
+        res['failures'].append({'obligation': '%s/bounded/hash_invariance#%s' % (prop, kind), 'message': 'program hash invariance: %s (%d cases)' % (kind, len(lst)),
+                                'rendered': '\n'.join('%s %s' % x for x in lst[:6])[:2000], 'origins': ['assembly/src/assembler/span_builder.rs', 'assembly/src/assembler/mod.rs', 'assembly/src/assembler/instruction/mod.rs', 'core/src/program/blocks'],
+                                'failing_input': {'program': lst[0][0], 'case': lst[0][1][:500], 'cases': len(lst), 'cmd': '.cache/target/debug/hashprobe'}})
+    if res['failures']:
+        res['status'] = 'fail'
+    elif res['undecided']:
+        res['status'] = 'undecided'
+    res['wall_s'] = round(time.time() - t0, 1)
+    res['checker_cmd'] = 'tools/hashprobe (built against the current tree): %s checks' % m.group(1)
     return res
